@@ -887,6 +887,57 @@ def check_czar(run, exe, model, cases, scratch):
 
 
 # ==========================================================================================
+# OPES with multiple walkers
+# ==========================================================================================
+
+def gen_opes(r, cid):
+    n = r.choice([2, 3, 4])
+    pace = r.choice([1, 2, 3])
+    T = r.randint(3, 9)
+    steps = [[V.dyadic(r, -8, 8, bits=4) for _ in range(n)] for _ in range(T)]
+    return {"kind": "opes", "id": cid, "n": n, "pace": pace, "steps": steps}
+
+
+def check_opes(run, exe, model, cases, scratch):
+    for c in cases:
+        run.dist("opes:n=%d" % c["n"])
+        run.count(json.dumps([c["steps"], c["pace"]]), True)
+        run.sample({"kind": "opes", "n": c["n"], "pace": c["pace"], "steps": c["steps"][:3]}, cap=8)
+        try:
+            res, stats = scen.run_opes(exe, c, scratch, timeout=15.0)
+        except W.WalkerTimeout as e:
+            run.violation("opes:gather-deadlock", "the walkers did not complete the schedule (%s)" % str(e)[:200], {"kind": "opes", "case": c})
+            continue
+        rounds = []
+        for t, row in enumerate(c["steps"]):
+            if t > 0 and t % c["pace"] == 0:
+                rounds.append([V.hexf(x) for x in row])
+            dumps = res[t]
+            if any(d is None for d in dumps):
+                run.violation("opes:no-state", "a walker printed no OPES state at step %d" % t, {"kind": "opes", "case": c})
+                break
+            # oracle on the implementation alone: every walker holds the same kernels (bit for bit) and their centres are
+            # what the walkers were fed at the deposition steps, in rank order
+            if any(d["kernels"] != dumps[0]["kernels"] for d in dumps[1:]):
+                run.violation("opes:walkers-differ", "at step %d the walkers hold different kernel lists: %s" %
+                              (t, [[k[1] for k in d["kernels"]] for d in dumps]), {"kind": "opes", "case": c, "step": t})
+                break
+            exp = [x for rd in rounds for x in rd]
+            got = [V.hexf(float.fromhex(k[1])) for k in dumps[0]["kernels"]]
+            if got != exp:
+                run.violation("opes:kernels-not-the-contributions", "at step %d the kernel centres are %s, the walkers were fed %s at the deposition steps (rank order)"
+                              % (t, got, exp), {"kind": "opes", "case": c, "step": t})
+                break
+            rc, mout, err = V.run_lines(model, ["OPES %d %s" % (c["n"], ";".join(",".join(rd) for rd in rounds))], timeout=60)
+            if rc != 0 or len(mout) != 1:
+                raise V.InfraError("C14 model driver failed: rc=%s %s" % (rc, err[-500:]))
+            mlists = [[] if x == "-" else x.split(",") for x in mout[0].split()[1].split(";")]
+            if any(ml != [V.hexf(float.fromhex(k[1])) for k in d["kernels"]] for ml, d in zip(mlists, dumps)) or len(mlists) != len(dumps):
+                run.mismatch("opes", {"case": c, "step": t}, [[k[1] for k in d["kernels"]] for d in dumps], mlists)
+                break
+
+
+# ==========================================================================================
 
 def load_corpus():
     cases = []
@@ -903,6 +954,7 @@ def run_cases(run, exe, model, cases, scratch):
     check_meta(run, exe, model, [c for c in cases if c["kind"] == "meta"], scratch)
     check_view(run, exe, model, [c for c in cases if c["kind"] == "view"], scratch)
     check_czar(run, exe, model, [c for c in cases if c["kind"] == "czar"], scratch)
+    check_opes(run, exe, model, [c for c in cases if c["kind"] == "opes"], scratch)
 
 
 def check(run):
@@ -924,6 +976,7 @@ def check(run):
         cases += [gen_view(r, "v%d" % i) for i in range(nv)]
         cases += [gen_view(r, "x%d" % i, robust=True) for i in range(nr)]
         cases += [gen_czar(r, "z%d" % i) for i in range(8 if quick else 150)]
+        cases += [gen_opes(r, "o%d" % i) for i in range(8 if quick else 150)]
         run_cases(run, exe, model, cases, scratch)
     finally:
         leftover = V.sh(["pgrep", "-f", exe])[1].split()
@@ -944,7 +997,7 @@ def replay(path):
     print(json.dumps(j, indent=1)[:6000])
     def find_case(x):
         if isinstance(x, dict):
-            if x.get("kind") in ("abf", "meta", "view", "czar") and ("events" in x or "steps" in x):
+            if x.get("kind") in ("abf", "meta", "view", "czar", "opes") and ("events" in x or "steps" in x):
                 return x
             for v in x.values():
                 c = find_case(v)
